@@ -7,6 +7,7 @@ import (
 	"strconv"
 	"strings"
 
+	"github.com/songzhibin97/go-baseutils/base/bcomparator"
 	"github.com/songzhibin97/go-baseutils/structure/maps/treebidimap"
 	"github.com/songzhibin97/go-baseutils/structure/maps/treemap"
 	"github.com/songzhibin97/go-baseutils/structure/sets/treeset"
@@ -295,19 +296,19 @@ type OBidi interface {
 type mapKind struct {
 	label    string // meta label
 	coq      string // Coq kind term
-	mk       func() OMap
+	mk       func(c bcomparator.Comparator[int]) OMap
 	hasFloor bool
 	zeros    bool // treemap style results
 }
 
 func mapKinds() []mapKind {
 	ks := []mapKind{
-		{"rb", "KRB", func() OMap { return rbA{rbt.NewWithIntComparator[int]()} }, true, false},
-		{"rb-safe", "KRB", func() OMap { return rbS{rbt.NewSafeWithIntComparator[int]()} }, true, false},
-		{"avl", "KAVL", func() OMap { return avlA{avltree.NewWithIntComparator[int]()} }, true, false},
-		{"avl-safe", "KAVL", func() OMap { return avlS{avltree.NewSafeWithIntComparator[int]()} }, true, false},
-		{"treemap", "KTMap", func() OMap { return tmA{treemap.NewWithIntComparator[int]()} }, true, true},
-		{"treemap-safe", "KTMap", func() OMap { return tmS{treemap.NewSafeWithIntComparator[int]()} }, true, true},
+		{"rb", "KRB", func(c bcomparator.Comparator[int]) OMap { return rbA{rbt.NewWith[int, int](c)} }, true, false},
+		{"rb-safe", "KRB", func(c bcomparator.Comparator[int]) OMap { return rbS{rbt.NewSafeWith[int, int](c)} }, true, false},
+		{"avl", "KAVL", func(c bcomparator.Comparator[int]) OMap { return avlA{avltree.NewWith[int, int](c)} }, true, false},
+		{"avl-safe", "KAVL", func(c bcomparator.Comparator[int]) OMap { return avlS{avltree.NewSafeWith[int, int](c)} }, true, false},
+		{"treemap", "KTMap", func(c bcomparator.Comparator[int]) OMap { return tmA{treemap.NewWith[int, int](c)} }, true, true},
+		{"treemap-safe", "KTMap", func(c bcomparator.Comparator[int]) OMap { return tmS{treemap.NewSafeWith[int, int](c)} }, true, true},
 	}
 	return ks
 }
@@ -315,22 +316,22 @@ func mapKinds() []mapKind {
 func btKind(m int, safe bool) mapKind {
 	mm := m
 	if safe {
-		return mapKind{fmt.Sprintf("bt%d-safe", m), fmt.Sprintf("(KBT %d)", m), func() OMap { return btS{btree.NewSafeWithIntComparator[int](mm)} }, false, false}
+		return mapKind{fmt.Sprintf("bt%d-safe", m), fmt.Sprintf("(KBT %d)", m), func(c bcomparator.Comparator[int]) OMap { return btS{btree.NewSafeWith[int, int](mm, c)} }, false, false}
 	}
-	return mapKind{fmt.Sprintf("bt%d", m), fmt.Sprintf("(KBT %d)", m), func() OMap { return btA{btree.NewWithIntComparator[int](mm)} }, false, false}
+	return mapKind{fmt.Sprintf("bt%d", m), fmt.Sprintf("(KBT %d)", m), func(c bcomparator.Comparator[int]) OMap { return btA{btree.NewWith[int, int](mm, c)} }, false, false}
 }
 
-func newSet(safe bool) OSet {
+func newSet(safe bool, c bcomparator.Comparator[int]) OSet {
 	if safe {
-		return treeset.NewSafeWithIntComparator()
+		return treeset.NewSafeWith[int](c)
 	}
-	return treeset.NewWithIntComparator()
+	return treeset.NewWith[int](c)
 }
-func newBidi(safe bool) OBidi {
+func newBidi(safe bool, c bcomparator.Comparator[int]) OBidi {
 	if safe {
-		return treebidimap.NewSafeWithIntComparators()
+		return treebidimap.NewSafeWith[int, int](c, c)
 	}
-	return treebidimap.NewWithIntComparators()
+	return treebidimap.NewWith[int, int](c, c)
 }
 
 // ---------------- dumps (C02) ----------------
@@ -507,13 +508,13 @@ func (a btD) Dump() []int64 { return dumpBT(a.t) }
 type treeKind struct {
 	label string
 	coq   string
-	mk    func() DTree
+	mk    func(c bcomparator.Comparator[int]) DTree
 }
 
 func treeKinds(orders []int) []treeKind {
 	ks := []treeKind{
-		{"rb", "KRB", func() DTree { return rbD{rbt.NewWithIntComparator[int]()} }},
-		{"avl", "KAVL", func() DTree { return avlD{avltree.NewWithIntComparator[int]()} }},
+		{"rb", "KRB", func(c bcomparator.Comparator[int]) DTree { return rbD{rbt.NewWith[int, int](c)} }},
+		{"avl", "KAVL", func(c bcomparator.Comparator[int]) DTree { return avlD{avltree.NewWith[int, int](c)} }},
 	}
 	for _, m := range orders {
 		ks = append(ks, btTreeKind(m))
@@ -522,5 +523,5 @@ func treeKinds(orders []int) []treeKind {
 }
 func btTreeKind(m int) treeKind {
 	mm := m
-	return treeKind{fmt.Sprintf("bt%d", m), fmt.Sprintf("(KBT %d)", m), func() DTree { return btD{btree.NewWithIntComparator[int](mm)} }}
+	return treeKind{fmt.Sprintf("bt%d", m), fmt.Sprintf("(KBT %d)", m), func(c bcomparator.Comparator[int]) DTree { return btD{btree.NewWith[int, int](mm, c)} }}
 }
